@@ -14,7 +14,7 @@ from sim import core, peers, refsem
 from sim.core import RunResult
 
 ID = "C01"
-TIERS = {"quick": 6000, "thorough": 120000}
+TIERS = {"quick": 25000, "thorough": 400000}
 RULE = (
     "each run = one seeded session history (1-2 Solver objects, <=8 variables each, domain product <=4096 "
     "(<=20480 with one wide variable), <=14 operations, constraint trees <=25 nodes over every DSL operator); "
